@@ -43,6 +43,13 @@ pub fn check(seq: &[u8], k: usize) -> Option<(String, String)> {
                 format!("item {} (window at {}) forward code {} != expected {}", i, e.0, g.0, e.1),
             ));
         }
+        // "each item is the pair (forward code, reverse-strand code)": the second component of the very window
+        if g.1 != model::rc_code(e.1, k) {
+            return Some((
+                "kmer.reverse_component".into(),
+                format!("item {} (window at {}): reverse-strand code {} but the reverse complement of the window encodes to {}", i, e.0, g.1, model::rc_code(e.1, k)),
+            ));
+        }
     }
     None
 }
